@@ -97,7 +97,7 @@ func callsInOnly(fn *ssa.Function, keys ...string) []ssa.CallInstruction {
 	return out
 }
 
-func allInstrs(fn *ssa.Function, f func(ssa.Instruction)) {
+func allInstrsIn(fn *ssa.Function, f func(ssa.Instruction)) {
 	for _, b := range fn.Blocks {
 		for _, in := range b.Instrs {
 			f(in)
@@ -169,9 +169,26 @@ func stripD(v ssa.Value, depth int) ssa.Value {
 				}
 				// a variable captured by reference and assigned once in the enclosing function: its value
 				if fv, isFV := x.X.(*ssa.FreeVar); isFV && depth < 6 {
+					// inside a closure the path search walked into: what the variable held at that call
+					if call := frameSite[fv.Parent()]; call != nil {
+						if al := boundCell(fv); al != nil {
+							if s, ok := liftedAt[call][al]; ok {
+								depth++
+								v = s
+								continue
+							}
+						}
+					}
 					if s := capturedValue(fv); s != nil {
 						depth++
 						v = s
+						continue
+					}
+				}
+				if _, isFA := x.X.(*ssa.FieldAddr); isFA && depth < 6 {
+					if r := resolveLoad(x); r != ssa.Value(x) {
+						depth++
+						v = r
 						continue
 					}
 				}
@@ -211,6 +228,9 @@ func stripD(v ssa.Value, depth int) ssa.Value {
 // frameArgs: while Cut.Run evaluates predicates at a point inside a helper it walked into (a function extracted
 // since the pinned commit), the helper's parameters stand for the arguments of the call (set and restored by Run).
 var frameArgs = map[*ssa.Parameter]ssa.Value{}
+
+// frameSite: for each closure on the frame stack of the path search, the call the search walked in through.
+var frameSite = map[*ssa.Function]*ssa.Call{}
 
 // scanRoot: the pinned function whose code (with the helpers extracted from it) a rule is currently scanning: set
 // by findInstrs / blocksDeep / Cut.Run. A parameter of such a helper that is met outside a path search stands for
@@ -256,6 +276,9 @@ func loadedValue(ld *ssa.UnOp) ssa.Value {
 	if n == 1 && !capturedAndWritten(al) {
 		return only
 	}
+	if v := reachingStore(al, b, idx); v != nil {
+		return v
+	}
 	// walk up a chain of single predecessors
 	cur := b
 	for len(cur.Preds) == 1 {
@@ -280,6 +303,9 @@ func capturedAndWritten(al *ssa.Alloc) bool {
 			continue
 		}
 		fn := mc.Fn.(*ssa.Function)
+		if onlyDeferred(mc) {
+			continue // writes when the function exits: after every read in its body
+		}
 		for i, bnd := range mc.Bindings {
 			if bnd != ssa.Value(al) {
 				continue
@@ -361,7 +387,23 @@ func derivesFrom(v ssa.Value, src func(ssa.Value) bool, passThrough ...string) b
 		case *ssa.BinOp:
 			return walk(x.X) || walk(x.Y)
 		case *ssa.UnOp:
+			if x.Op == token.MUL {
+				if r := resolveLoad(x); r != ssa.Value(x) && walk(r) {
+					return true
+				}
+			}
 			return walk(x.X)
+		case *ssa.FreeVar:
+			// a captured variable: what the enclosing function assigned to it
+			if isPointerToCell(x) {
+				if al := boundCell(x); al != nil {
+					return walk(al)
+				}
+			}
+			if s := capturedValue(x); s != nil {
+				return walk(s)
+			}
+			return false
 		case *ssa.Alloc:
 			for _, r := range *x.Referrers() {
 				if st, ok := r.(*ssa.Store); ok && st.Addr == ssa.Value(x) && walk(st.Val) {
@@ -449,6 +491,16 @@ func derivesFrom(v ssa.Value, src func(ssa.Value) bool, passThrough ...string) b
 
 // fieldAddrOf: addr is &x.f ; returns the field object and the base value.
 func fieldAddrOf(addr ssa.Value) (*types.Var, ssa.Value) {
+	f, base := fieldAddrOfRaw(addr)
+	if f == nil {
+		return nil, nil
+	}
+	// (the object read through a variable's cell — in a local predicate: through its free variable — is the object)
+	return f, resolveLoad(base)
+}
+
+// fieldAddrOfRaw: the base as written (the lock engine names objects by the variable they are reached through).
+func fieldAddrOfRaw(addr ssa.Value) (*types.Var, ssa.Value) {
 	fa, ok := addr.(*ssa.FieldAddr)
 	if !ok {
 		return nil, nil
@@ -495,6 +547,40 @@ func fieldKeyOf(base ssa.Value, f *types.Var) string {
 // stripNot peels explicit boolean negations.
 func stripNot(v ssa.Value) (ssa.Value, bool) {
 	neg := false
+	for d := 0; ; d++ {
+		if call, isCall := v.(*ssa.Call); isCall && d < 4 {
+			// `if pred()` with pred a local predicate whose body is one expression: the expression
+			if e := pureCallResult(call); e != nil {
+				v = e
+				continue
+			}
+		}
+		if _, isParam := v.(*ssa.Parameter); isParam && d < 6 {
+			// (the boolean parameter of an extracted predicate: the caller's argument)
+			if r := resolveLoad(v); r != v {
+				v = r
+				continue
+			}
+		}
+		u, ok := v.(*ssa.UnOp)
+		if ok && u.Op == token.MUL && d < 6 {
+			// a boolean variable read through its cell (in a local predicate: through its free variable)
+			if r := resolveLoad(v); r != v {
+				v = r
+				continue
+			}
+		}
+		if !ok || u.Op != token.NOT {
+			return v, neg
+		}
+		v = u.X
+		neg = !neg
+	}
+}
+
+// stripNotRaw: negations only (the path search walks into predicates itself).
+func stripNotRaw(v ssa.Value) (ssa.Value, bool) {
+	neg := false
 	for {
 		u, ok := v.(*ssa.UnOp)
 		if !ok || u.Op != token.NOT {
@@ -503,6 +589,35 @@ func stripNot(v ssa.Value) (ssa.Value, bool) {
 		v = u.X
 		neg = !neg
 	}
+}
+
+// pureCallResult: call is a plain call of a closure or of a helper that did not exist at the pinned commit, whose
+// body is a single block that writes nothing and returns one boolean: the expression returned (its leaves are the
+// helper's parameters and captured variables, which strip() resolves to the caller's values).
+func pureCallResult(call *ssa.Call) ssa.Value {
+	if call.Call.IsInvoke() {
+		return nil
+	}
+	g := call.Call.StaticCallee()
+	if g == nil || !inlinable(g) || len(g.Blocks) != 1 || g.Signature.Results().Len() != 1 {
+		return nil
+	}
+	if bt, ok := g.Signature.Results().At(0).Type().Underlying().(*types.Basic); !ok || bt.Kind() != types.Bool {
+		return nil
+	}
+	var ret *ssa.Return
+	for _, in := range g.Blocks[0].Instrs {
+		switch x := in.(type) {
+		case *ssa.Store, *ssa.MapUpdate, *ssa.Send, *ssa.Go, *ssa.Defer, *ssa.Panic:
+			return nil
+		case *ssa.Return:
+			ret = x
+		}
+	}
+	if ret == nil || len(ret.Results) != 1 {
+		return nil
+	}
+	return ret.Results[0]
 }
 
 func isNilConst(v ssa.Value) bool {
@@ -1080,7 +1195,7 @@ func isParamCell(c *Ctx, cell ssa.Value, name string) bool {
 		}
 		found := false
 		ok := true
-		allInstrs(parent, func(in ssa.Instruction) {
+		allInstrsIn(parent, func(in ssa.Instruction) {
 			if mc, isMC := in.(*ssa.MakeClosure); isMC && mc.Fn == ssa.Value(fn) {
 				found = true
 				if !isParamCell(c, mc.Bindings[idx], name) {
@@ -1152,9 +1267,179 @@ func phiLeaves(v ssa.Value) []ssa.Value {
 				return
 			}
 		}
+		// a read of a variable that lives in a cell (it is captured by a closure) where assignments meet: like a
+		// phi, every assignment that can reach the read
+		if ld, ok := v.(*ssa.UnOp); ok && ld.Op == token.MUL {
+			if _, isCell := ld.X.(*ssa.Alloc); isCell {
+				if s := loadedValue(ld); s != nil {
+					walk(s) // one assignment decides it
+					return
+				}
+			}
+			if fv, isFV := ld.X.(*ssa.FreeVar); isFV && isPointerToCell(fv) {
+				if s := capturedValue(fv); s != nil {
+					walk(s)
+					return
+				}
+			}
+			if vals := cellValuesAtLoad(ld); len(vals) > 0 {
+				for _, x := range vals {
+					walk(x)
+				}
+				return
+			}
+		}
 		out = append(out, v)
 	}
 	walk(v)
+	return out
+}
+
+// cellValuesAtLoad: for a load of a plain local cell — in the declaring function, or through the free variable of a
+// closure that is only called directly — the values of the assignments that can reach the load (reaching
+// definitions of that one cell; the zero value when no assignment is passed is not reported). nil when the cell
+// is not plain or a use of the closure is not a direct call.
+func cellValuesAtLoad(ld *ssa.UnOp) []ssa.Value {
+	type point struct {
+		b *ssa.BasicBlock
+		i int
+	}
+	var al *ssa.Alloc
+	var pts []point
+	switch x := ld.X.(type) {
+	case *ssa.Alloc:
+		al = x
+		pts = append(pts, point{ld.Block(), instrIndex(ld)})
+	case *ssa.FreeVar:
+		fn := x.Parent()
+		parent := fn.Parent()
+		if parent == nil {
+			return nil
+		}
+		idx := -1
+		for i, q := range fn.FreeVars {
+			if q == x {
+				idx = i
+			}
+		}
+		for _, b := range parent.Blocks {
+			for _, in := range b.Instrs {
+				mc, ok := in.(*ssa.MakeClosure)
+				if !ok || mc.Fn != ssa.Value(fn) || idx < 0 || idx >= len(mc.Bindings) {
+					continue
+				}
+				a, isAl := mc.Bindings[idx].(*ssa.Alloc)
+				if !isAl || (al != nil && al != a) {
+					return nil
+				}
+				al = a
+				for _, r := range *mc.Referrers() {
+					if _, isDbg := r.(*ssa.DebugRef); isDbg {
+						continue
+					}
+					call, isCall := r.(*ssa.Call)
+					if !isCall || call.Call.Value != ssa.Value(mc) {
+						return nil
+					}
+					pts = append(pts, point{call.Block(), instrIndex(call)})
+				}
+			}
+		}
+	}
+	if al == nil || len(pts) == 0 {
+		return nil
+	}
+	for _, p := range pts {
+		if !cellQuietAt(al, p.b, p.i) {
+			return nil
+		}
+	}
+	var stores []*ssa.Store
+	for _, r := range *al.Referrers() {
+		if st, ok := r.(*ssa.Store); ok && st.Addr == ssa.Value(al) {
+			stores = append(stores, st)
+		}
+	}
+	isStoreAt := func(b *ssa.BasicBlock, i int) bool {
+		st, ok := b.Instrs[i].(*ssa.Store)
+		return ok && st.Addr == ssa.Value(al)
+	}
+	var out []ssa.Value
+	for _, s := range stores {
+		reaches := false
+		for _, p := range pts {
+			// from just after s to p without passing another assignment
+			sb, si := s.Block(), instrIndex(s)
+			blocked := false
+			if sb == p.b && si < p.i {
+				for k := si + 1; k < p.i; k++ {
+					if isStoreAt(sb, k) {
+						blocked = true
+					}
+				}
+				if !blocked {
+					reaches = true
+					break
+				}
+			}
+			// leave s's block
+			tail := false
+			for k := si + 1; k < len(sb.Instrs); k++ {
+				if isStoreAt(sb, k) {
+					tail = true
+				}
+			}
+			if tail {
+				continue
+			}
+			seen := map[*ssa.BasicBlock]bool{}
+			work := append([]*ssa.BasicBlock{}, sb.Succs...)
+			for len(work) > 0 && !reaches {
+				x := work[len(work)-1]
+				work = work[:len(work)-1]
+				if seen[x] {
+					continue
+				}
+				seen[x] = true
+				end := len(x.Instrs)
+				if x == p.b {
+					end = p.i
+				}
+				killed := false
+				for k := 0; k < end; k++ {
+					if isStoreAt(x, k) {
+						killed = true
+						break
+					}
+				}
+				if x == p.b && !killed {
+					reaches = true
+					break
+				}
+				if killed {
+					continue
+				}
+				// (x == p.b and killed before p: paths through the rest of the block may come round again)
+				if x == p.b {
+					for k := p.i; k < len(x.Instrs); k++ {
+						if isStoreAt(x, k) {
+							killed = true
+						}
+					}
+					if killed {
+						continue
+					}
+				}
+				work = append(work, x.Succs...)
+			}
+			if reaches {
+				break
+			}
+		}
+		if reaches {
+			out = append(out, s.Val)
+		}
+	}
 	return out
 }
 
@@ -1352,7 +1637,7 @@ func resolveVarAddr(c *Ctx, addr ssa.Value, fn *ssa.Function) ssa.Value {
 		return addr
 	}
 	var cell ssa.Value
-	allInstrs(p, func(in ssa.Instruction) {
+	allInstrsIn(p, func(in ssa.Instruction) {
 		if mc, ok := in.(*ssa.MakeClosure); ok && mc.Fn == ssa.Value(fn) {
 			for i, q := range fn.FreeVars {
 				if q == fv && i < len(mc.Bindings) {
@@ -1495,6 +1780,9 @@ func capturedValue(fv *ssa.FreeVar) ssa.Value {
 		return nil
 	}
 	al, isCell := bound.(*ssa.Alloc)
+	if rep, isGroup := liftGroupRep[bound]; isGroup {
+		al, isCell = rep, true // a loop variable (lift.go): the header's pointer phi stands for the variable
+	}
 	if !isCell {
 		if pfv, isFV := bound.(*ssa.FreeVar); isFV {
 			// captured through two levels
@@ -1508,6 +1796,38 @@ func capturedValue(fv *ssa.FreeVar) ssa.Value {
 	if !isPointerToCell(fv) {
 		return nil
 	}
+	if liftedCells[al] {
+		// a promoted variable (lift.go): what it holds at the closure's calls, when they agree
+		var val ssa.Value
+		agree := true
+		for _, b := range parent.Blocks {
+			for _, in := range b.Instrs {
+				mc, ok := in.(*ssa.MakeClosure)
+				if !ok || mc.Fn != ssa.Value(fn) {
+					continue
+				}
+				for _, r := range *mc.Referrers() {
+					if _, isDbg := r.(*ssa.DebugRef); isDbg {
+						continue
+					}
+					call, isCall := r.(*ssa.Call)
+					if !isCall || call.Call.Value != ssa.Value(mc) {
+						agree = false
+						continue
+					}
+					v, ok := liftedAt[call][al]
+					if !ok || (val != nil && val != v) {
+						agree = false
+					}
+					val = v
+				}
+			}
+		}
+		if agree && val != nil {
+			capturedMemo[fv] = val
+			return val
+		}
+	}
 	var stored ssa.Value
 	stores := 0
 	for _, r := range *al.Referrers() {
@@ -1520,14 +1840,257 @@ func capturedValue(fv *ssa.FreeVar) ssa.Value {
 		}
 	}
 	if stores != 1 || capturedAndWritten(al) {
-		return nil
+		// a variable assigned several times, read by a closure that is only ever called directly: what the nearest
+		// dominating assignment stored, when every call site sees the same one
+		stored = nil
+		for _, b := range parent.Blocks {
+			for i, in := range b.Instrs {
+				mc, ok := in.(*ssa.MakeClosure)
+				if !ok || mc.Fn != ssa.Value(fn) {
+					continue
+				}
+				for _, r := range *mc.Referrers() {
+					if _, isDbg := r.(*ssa.DebugRef); isDbg {
+						continue
+					}
+					call, isCall := r.(*ssa.Call)
+					if !isCall || call.Call.Value != ssa.Value(mc) {
+						return nil
+					}
+					v := reachingStore(al, call.Block(), instrIndex(call))
+					if v == nil || (stored != nil && stored != v) {
+						return nil
+					}
+					stored = v
+				}
+				_ = i
+			}
+		}
+		capturedMemo[fv] = stored
+		return stored
 	}
 	capturedMemo[fv] = stored
 	return stored
 }
 
+// cellHazards: the instructions of the declaring function after which the cell may be written by something
+// other than its own whole-value stores: where its address is handed to a call or stored, and where a closure that
+// writes it (or lets its address escape) is made. A closure used by defer statements only runs when the function
+// exits, after every point of its body: no hazard. ok=false when a use is not understood.
+type cellHaz struct {
+	at []ssa.Instruction
+	ok bool
+}
+
+var cellHazMemo = map[*ssa.Alloc]*cellHaz{}
+
+func cellHazards(al *ssa.Alloc) *cellHaz {
+	if h, ok := cellHazMemo[al]; ok {
+		return h
+	}
+	h := &cellHaz{ok: true}
+	cellHazMemo[al] = h
+	// quiet: the closure only loads the variable (recursively through closures it makes)
+	var quiet func(a ssa.Value, depth int) bool
+	quiet = func(a ssa.Value, depth int) bool {
+		if depth > 3 {
+			return false
+		}
+		for _, r := range *a.Referrers() {
+			switch x := r.(type) {
+			case *ssa.DebugRef:
+			case *ssa.UnOp:
+				if x.Op != token.MUL {
+					return false
+				}
+			case *ssa.MakeClosure:
+				fn, ok := x.Fn.(*ssa.Function)
+				if !ok {
+					return false
+				}
+				for i, bnd := range x.Bindings {
+					if bnd == a && !quiet(fn.FreeVars[i], depth+1) {
+						return false
+					}
+				}
+			default:
+				return false
+			}
+		}
+		return true
+	}
+	for _, r := range *al.Referrers() {
+		switch x := r.(type) {
+		case *ssa.DebugRef:
+		case *ssa.Store:
+			if x.Addr != ssa.Value(al) {
+				h.at = append(h.at, x) // the address itself is stored somewhere
+			}
+		case *ssa.UnOp:
+			if x.Op != token.MUL {
+				h.ok = false
+			}
+		case *ssa.MakeClosure:
+			fn, ok := x.Fn.(*ssa.Function)
+			if !ok {
+				h.ok = false
+				continue
+			}
+			if onlyDeferred(x) {
+				continue
+			}
+			for i, bnd := range x.Bindings {
+				if bnd == ssa.Value(al) && !quiet(fn.FreeVars[i], 1) {
+					h.at = append(h.at, x)
+				}
+			}
+		case ssa.Instruction:
+			h.at = append(h.at, x) // passed to a call, field / element address taken, ...
+		}
+	}
+	return h
+}
+
+// cellPlain: nothing but the declaring function's own stores ever writes the cell.
+func cellPlain(al *ssa.Alloc) bool {
+	h := cellHazards(al)
+	return h.ok && len(h.at) == 0
+}
+
+// cellQuietAt: no foreign write of the cell can have happened when control is just before instruction idx of b:
+// no hazard instruction can run before that point.
+func cellQuietAt(al *ssa.Alloc, b *ssa.BasicBlock, idx int) bool {
+	h := cellHazards(al)
+	if !h.ok {
+		return false
+	}
+	for _, hz := range h.at {
+		hb, hi := hz.Block(), instrIndex(hz)
+		if hb == b && hi < idx {
+			return false
+		}
+		seen := map[*ssa.BasicBlock]bool{}
+		work := append([]*ssa.BasicBlock{}, hb.Succs...)
+		for len(work) > 0 {
+			x := work[len(work)-1]
+			work = work[:len(work)-1]
+			if seen[x] {
+				continue
+			}
+			seen[x] = true
+			if x == b {
+				return false
+			}
+			work = append(work, x.Succs...)
+		}
+	}
+	return true
+}
+
+// onlyDeferred: the closure value is used by defer statements only.
+func onlyDeferred(mc *ssa.MakeClosure) bool {
+	n := 0
+	for _, r := range *mc.Referrers() {
+		switch x := r.(type) {
+		case *ssa.DebugRef:
+		case *ssa.Defer:
+			if x.Call.Value != ssa.Value(mc) {
+				return false
+			}
+			n++
+		default:
+			return false
+		}
+	}
+	return n > 0
+}
+
+// reachingStore: the value a plain local cell holds just before instruction idx of block b, when one assignment
+// decides it: the nearest store that dominates the point, provided no other store to the cell can run after it on
+// a way to the point. nil when undecided (no dominating store, or two assignments meet: that would be a phi).
+func reachingStore(al *ssa.Alloc, b *ssa.BasicBlock, idx int) ssa.Value {
+	if b == nil || idx < 0 || b.Parent() != al.Parent() || !cellQuietAt(al, b, idx) {
+		return nil
+	}
+	var stores []*ssa.Store
+	for _, r := range *al.Referrers() {
+		if st, ok := r.(*ssa.Store); ok && st.Addr == ssa.Value(al) {
+			stores = append(stores, st)
+		}
+	}
+	lastIn := func(blk *ssa.BasicBlock, before int) *ssa.Store {
+		var best *ssa.Store
+		bi := -1
+		for _, st := range stores {
+			if st.Block() != blk {
+				continue
+			}
+			k := instrIndex(st)
+			if k < before && k > bi {
+				best, bi = st, k
+			}
+		}
+		return best
+	}
+	var s *ssa.Store
+	if s = lastIn(b, idx); s == nil {
+		for d := b.Idom(); d != nil && s == nil; d = d.Idom() {
+			s = lastIn(d, len(d.Instrs))
+		}
+	}
+	if s == nil {
+		return nil
+	}
+	sIdx := instrIndex(s)
+	// another store that reaches the point without passing s again
+	for _, o := range stores {
+		if o == s {
+			continue
+		}
+		oIdx := instrIndex(o)
+		ob := o.Block()
+		if ob == s.Block() && oIdx < sIdx {
+			// s follows o in the block: leaving o always passes s ... unless the point lies between them
+			if ob == b && idx > oIdx && idx <= sIdx {
+				return nil
+			}
+			continue
+		}
+		if ob == b && oIdx < idx && (s.Block() != b || sIdx < oIdx) {
+			return nil // straight down the block from o to the point
+		}
+		seen := map[*ssa.BasicBlock]bool{}
+		work := append([]*ssa.BasicBlock{}, ob.Succs...)
+		for len(work) > 0 {
+			x := work[len(work)-1]
+			work = work[:len(work)-1]
+			if seen[x] {
+				continue
+			}
+			seen[x] = true
+			if x == s.Block() {
+				if x == b && idx <= sIdx {
+					return nil
+				}
+				continue // entering the block from the top runs s before anything after it
+			}
+			if x == b {
+				return nil
+			}
+			work = append(work, x.Succs...)
+		}
+	}
+	return s.Val
+}
+
 // isPointerToCell: the free variable is the address of a captured variable (by-reference capture).
 func isPointerToCell(fv *ssa.FreeVar) bool {
+	// a function literal captures every variable by reference (bound-method wrappers and thunks capture values)
+	if p := fv.Parent(); p != nil && p.Synthetic == "" && p.Parent() != nil {
+		if _, isPtr := fv.Type().Underlying().(*types.Pointer); isPtr {
+			return true
+		}
+	}
 	refs := fv.Referrers()
 	if refs == nil {
 		return false
@@ -1542,7 +2105,271 @@ func isPointerToCell(fv *ssa.FreeVar) bool {
 			if x.Addr == ssa.Value(fv) {
 				return true
 			}
+		case *ssa.FieldAddr:
+			if x.X == ssa.Value(fv) {
+				return true // a field of the captured (struct) variable
+			}
 		}
 	}
 	return false
+}
+
+// allInstrs: the instructions of fn and of the helpers / local closures it plainly calls (depth 2), as findInstrs
+// sees them: a step moved into a helper is still a step of fn. allInstrsIn is fn alone.
+func allInstrs(fn *ssa.Function, f func(ssa.Instruction)) {
+	if isScanRoot(fn) && !scanBusy {
+		scanRoot = fn
+	}
+	seen := map[*ssa.Function]bool{fn: true}
+	var walk func(g *ssa.Function, depth int)
+	walk = func(g *ssa.Function, depth int) {
+		for _, b := range g.Blocks {
+			for _, in := range b.Instrs {
+				f(in)
+				if call, ok := in.(*ssa.Call); ok && depth < 2 {
+					if h := call.Call.StaticCallee(); inlinable(h) && !seen[h] {
+						seen[h] = true
+						walk(h, depth+1)
+					}
+				}
+			}
+		}
+	}
+	walk(fn, 0)
+}
+
+// boundCell: the enclosing function's cell a free variable of a closure refers to (the same one at every place
+// the closure is made); nil otherwise.
+func boundCell(fv *ssa.FreeVar) *ssa.Alloc {
+	fn := fv.Parent()
+	parent := fn.Parent()
+	if parent == nil {
+		return nil
+	}
+	idx := -1
+	for i, q := range fn.FreeVars {
+		if q == fv {
+			idx = i
+		}
+	}
+	var al *ssa.Alloc
+	for _, b := range parent.Blocks {
+		for _, in := range b.Instrs {
+			mc, ok := in.(*ssa.MakeClosure)
+			if !ok || mc.Fn != ssa.Value(fn) || idx < 0 || idx >= len(mc.Bindings) {
+				continue
+			}
+			a, isAl := mc.Bindings[idx].(*ssa.Alloc)
+			if !isAl {
+				// the pointer phi of a promoted loop-variable group (lift.go): the group's first cell
+				a, isAl = liftGroupRep[mc.Bindings[idx]]
+			}
+			if !isAl || (al != nil && al != a) {
+				return nil
+			}
+			al = a
+		}
+	}
+	return al
+}
+
+// resolveLoad: v when it is not a load of a local variable's cell; otherwise what the variable holds there — the
+// assignment that decides it (loadedValue), or, for a read through a closure's free variable, the enclosing
+// function's value at the call (capturedValue / the frame the path search is in). Nothing else is stripped.
+func resolveLoad(v ssa.Value) ssa.Value {
+	for d := 0; d < 6; d++ {
+		// the parameter of a helper extracted since the pinned commit: the argument of the call the path search
+		// walked in through, or of the scanned function's only call of the helper
+		if p, isParam := v.(*ssa.Parameter); isParam {
+			if a, ok := frameArgs[p]; ok && a != v {
+				v = a
+				continue
+			}
+			if scanRoot != nil && p.Parent() != scanRoot && inlinable(p.Parent()) {
+				if a := argOfParam(scanRoot, p); a != nil && a != v {
+					v = a
+					continue
+				}
+			}
+			return v
+		}
+		ld, ok := v.(*ssa.UnOp)
+		if !ok || ld.Op != token.MUL {
+			return v
+		}
+		switch x := ld.X.(type) {
+		case *ssa.Alloc:
+			s := loadedValue(ld)
+			if s == nil {
+				return v
+			}
+			v = s
+		case *ssa.FieldAddr:
+			// v.f.g of a captured struct variable, read inside the closure: the field of what the variable holds
+			root, path := fieldChain(x)
+			fv, isFV := root.(*ssa.FreeVar)
+			if !isFV || len(path) == 0 || !isPointerToCell(fv) {
+				return v
+			}
+			al := boundCell(fv)
+			if al == nil || !liftedCells[al] {
+				return v
+			}
+			var s ssa.Value
+			if call := frameSite[fv.Parent()]; call != nil {
+				s = liftedAt[call][al]
+			}
+			if s == nil {
+				s = capturedValue(fv)
+			}
+			if s == nil {
+				return v
+			}
+			return syntheticField(ld, s, path)
+		case *ssa.FreeVar:
+			if !isPointerToCell(x) {
+				return v
+			}
+			var s ssa.Value
+			if call := frameSite[x.Parent()]; call != nil {
+				if al := boundCell(x); al != nil {
+					s = liftedAt[call][al]
+				}
+			}
+			if s == nil {
+				s = capturedValue(x)
+			}
+			if s == nil {
+				return v
+			}
+			v = s
+		default:
+			return v
+		}
+	}
+	return v
+}
+
+// syntheticField: Field(...Field(s, path[0])..., path[n-1]) standing for the load ld (not part of any block;
+// one value per (load, s)).
+type synthKey struct {
+	ld *ssa.UnOp
+	s  ssa.Value
+}
+
+var synthFields = map[synthKey]ssa.Value{}
+
+func syntheticField(ld *ssa.UnOp, s ssa.Value, path []int) ssa.Value {
+	k := synthKey{ld, s}
+	if v, ok := synthFields[k]; ok {
+		return v
+	}
+	v := s
+	for _, idx := range path {
+		if _, isStruct := v.Type().Underlying().(*types.Struct); !isStruct {
+			synthFields[k] = ld
+			return ld
+		}
+		v = newLiftField(ld.Block(), v, idx, ld.Pos())
+	}
+	synthFields[k] = v
+	return v
+}
+
+// plainCalledOnly: the closure is made only to be called directly, in the function that makes it (a local
+// helper): the path search and the deep scans walk into it from there.
+func plainCalledOnly(a *ssa.Function) bool {
+	parent := a.Parent()
+	if parent == nil {
+		return false
+	}
+	n := 0
+	for _, b := range parent.Blocks {
+		for _, in := range b.Instrs {
+			mc, ok := in.(*ssa.MakeClosure)
+			if !ok || mc.Fn != ssa.Value(a) {
+				continue
+			}
+			for _, r := range *mc.Referrers() {
+				if _, isDbg := r.(*ssa.DebugRef); isDbg {
+					continue
+				}
+				call, isCall := r.(*ssa.Call)
+				if !isCall || call.Call.Value != ssa.Value(mc) {
+					return false
+				}
+				n++
+			}
+		}
+	}
+	return n > 0
+}
+
+// rootSite: the instruction of f at which `in` happens: in itself when it is one of f's instructions; when it lies
+// in a helper / local closure f plainly calls (as findInstrs sees them), the call in f through which it is
+// reached; nil when that is not unique.
+func rootSite(f *ssa.Function, in ssa.Instruction) ssa.Instruction {
+	if in.Parent() == f {
+		return in
+	}
+	var found ssa.Instruction
+	n := 0
+	var reaches func(g *ssa.Function, depth int) bool
+	reaches = func(g *ssa.Function, depth int) bool {
+		if g == in.Parent() {
+			return true
+		}
+		if depth >= 2 {
+			return false
+		}
+		for _, b := range g.Blocks {
+			for _, x := range b.Instrs {
+				if call, ok := x.(*ssa.Call); ok {
+					if h := call.Call.StaticCallee(); inlinable(h) && h != g && reaches(h, depth+1) {
+						return true
+					}
+				}
+			}
+		}
+		return false
+	}
+	for _, b := range f.Blocks {
+		for _, x := range b.Instrs {
+			if call, ok := x.(*ssa.Call); ok {
+				if h := call.Call.StaticCallee(); inlinable(h) && reaches(h, 0) {
+					found = x
+					n++
+				}
+			}
+		}
+	}
+	if n != 1 {
+		return nil
+	}
+	return found
+}
+
+// isScanRoot: a function rules state obligations about — one of the pinned commit, or a closure (closures are
+// analysed as units of their own as well as walked into from the function that calls them); a top-level function
+// that did not exist at the pinned commit is a helper extracted since and is only ever seen from its callers.
+func isScanRoot(fn *ssa.Function) bool {
+	return fn != nil && (fn.Parent() != nil || !inlinable(fn))
+}
+
+// enterScan: f is the function an engine is about to examine: helper parameters met from now on stand for the
+// arguments of f's calls (see scanRoot).
+func enterScan(f *ssa.Function) {
+	if isScanRoot(f) && !scanBusy {
+		scanRoot = f
+	}
+}
+
+// asRoot: run body with fn as the function being scanned, also when fn is a helper extracted since the pinned
+// commit: for analyses that follow a value INTO a callee and state their predicates over the callee's own
+// parameters (the parameters must then not be resolved to the outer caller's arguments).
+func asRoot(fn *ssa.Function, body func()) {
+	old := scanRoot
+	scanRoot = fn
+	defer func() { scanRoot = old }()
+	body()
 }
